@@ -131,7 +131,7 @@ let () =
                       | None -> print_string "m L model-save-or-load-failed\n"; go None r)
                    | _ -> go s r)) in
          let rest' = go (Some (init (n_of_int 1000))) rest in
-         if mode = "M" then print_string "m fin level={} warnings=0 errlines=0\n";
+         if mode = "M" then print_string "m fin level={} game={} warnings=0 errlines=0\n";
          print_string "end\n";
          cases rest'
        | _ -> cases rest)
